@@ -149,3 +149,25 @@ M("c18-graph-rotates-other-way", "C18", "cola/libdialect/graphs.cpp",
   mention=["TRANSFORM-MATRIX", "rotate90cw"])
 M("c18-neutral-temp", "C18", "cola/libdialect/constraints.cpp",
   "            g = xgap;\n            xgap = ygap;\n            ygap = -g;", "            g = -xgap;\n            xgap = ygap;\n            ygap = g;", expect="silent")
+
+# ---------------------------------------------------------------- C05
+M("c05-bends-overestimate", "C05", "cola/libavoid/makepath.cpp",
+  "        //   0 > o                     D--> \n        //\n        return 0;", "        //   0 > o                     D--> \n        //\n        return 2;",
+  mention=["BENDS-ADMISSIBLE"])
+M("c05-bends-underestimate-ok", "C05", "cola/libavoid/makepath.cpp",
+  "        //       o < 4                 D-->                 o < 4\n        //\n        return 4;", "        //       o < 4                 D-->                 o < 4\n        //\n        return 2;",
+  expect="silent")
+M("c05-bends-missing-case", "C05", "cola/libavoid/makepath.cpp",
+  "    else if (currDirPerpendicularToDestDir &&\n             (currToDestDir == destDir))", "    else if (currDirPerpendicularToDestDir && (currDir == CostDirectionN) &&\n             (currToDestDir == destDir))",
+  mention=["BENDS-ADMISSIBLE", "assertion"])
+M("c05-dirleft-wrong", "C05", "cola/libavoid/makepath.cpp",
+  "    else if (direction == CostDirectionS)\n    {\n        return CostDirectionE;\n    }\n    else if (direction == CostDirectionW)\n    {\n        return CostDirectionS;",
+  "    else if (direction == CostDirectionS)\n    {\n        return CostDirectionW;\n    }\n    else if (direction == CostDirectionW)\n    {\n        return CostDirectionS;",
+  mention=["DIR-TABLES", "dirLeft"])
+M("c05-heuristic-scaled", "C05", "cola/libavoid/makepath.cpp",
+  "        return dist + penalty;\n    }\n}", "        return 1.5 * dist + penalty;\n    }\n}", mention=["HEURISTIC-FORM", "Orthogonal"])
+M("c05-heuristic-extra-bend", "C05", "cola/libavoid/makepath.cpp",
+  "            if ((xmove != 0) && (ymove != 0))\n            {\n                bendCount += 1;", "            if ((xmove != 0) || (ymove != 0))\n            {\n                bendCount += 1;",
+  mention=["HEURISTIC-FORM"])
+M("c05-polyline-heuristic-inflated", "C05", "cola/libavoid/makepath.cpp",
+  "        return euclideanDist(curr, costTarPoint);", "        return 1.0001 * euclideanDist(curr, costTarPoint);", mention=["HEURISTIC-FORM", "PolyLine"])
